@@ -138,7 +138,15 @@ pub fn exec(tag: i64, inp: &[i64]) -> Vec<i64> {
         162 => {
             let consts = crate::generated::consts::consts();
             match consts.get(inp[0] as usize) {
-                Some((_, v)) => vec![*v],
+                Some((name, v)) => {
+                    // the constant this one is the LSB partner of, if there is one
+                    let base = name
+                        .strip_suffix("_LSB")
+                        .and_then(|b| consts.iter().find(|c| c.0 == b))
+                        .map(|c| c.1)
+                        .unwrap_or(NONE);
+                    vec![*v, base]
+                }
                 None => vec![-97],
             }
         }
